@@ -64,4 +64,54 @@ def judge (T : Nat) (os : List EntObs) (timeTravel outboxed injected : Nat) (non
     | some sig => some sig
     | none => if nondet then some "par/runs-differ-across-repetitions" else none
 
+/-! ## "whenever cross-partition delays respect the declared minimum": a valid configuration is run, not rejected
+
+A parallel run that ends with an exception (or is otherwise aborted) where the sequential run of the same
+model completes is a violation, unless the configuration really is outside the property's hypothesis.  The
+hypothesis is judged on the declared configuration and on what the *sequential* run of the implementation was
+observed to do: every cross-partition emission it made (`sends`: source partition, destination partition,
+delay in ns). -/
+
+/-- a declared `PartitionLink`: `decl` is `min_latency` as the decimal nanosecond count the user wrote
+    (`0.067 s` ↦ `67_000_000`), `eff` the nanosecond count the engine turns that float into
+    (`Duration.from_seconds`, `Instant + float`; executable glue, `eff ∈ {decl, decl − 1}`) -/
+structure DLink where
+  src : Nat
+  dst : Nat
+  decl : Nat
+  eff : Nat
+deriving DecidableEq, Repr
+
+structure ConfObs where
+  nparts : Nat
+  links : List DLink
+  /-- requested `window_size` (decimal ns), `none` = default (the minimum link latency) -/
+  window : Option Nat
+  /-- (partition of an entity, partition of an entity its public attributes reference) -/
+  refs : List (Nat × Nat)
+  /-- cross-partition emissions observed in the sequential run up to the end time -/
+  sends : List (Nat × Nat × Nat)
+deriving Repr
+
+def ConfObs.linked (c : ConfObs) (a b : Nat) : Bool := c.links.any (fun l => l.src == a && l.dst == b)
+
+/-- the hypothesis of the property, as a decidable predicate:
+    links are positive and join two different existing partitions; every cross-partition reference and every
+    observed cross-partition emission has a link; the window is at most every declared minimum latency; every
+    observed cross-partition delay is at least the declared minimum of (every declaration of) its link. -/
+def validConf (c : ConfObs) : Bool :=
+  c.links.all (fun l => decide (0 < l.decl) && decide (0 < l.eff) && l.src != l.dst
+                        && decide (l.src < c.nparts) && decide (l.dst < c.nparts))
+  && c.refs.all (fun r => r.1 == r.2 || c.linked r.1 r.2)
+  && (match c.window with
+      | none => true
+      | some w => decide (0 < w) && c.links.all (fun l => decide (w ≤ l.decl)))
+  && c.sends.all (fun s => c.linked s.1 s.2.1 &&
+        c.links.all (fun l => !(l.src == s.1 && l.dst == s.2.1) || decide (l.eff ≤ s.2.2)))
+
+/-- the parallel run of the implementation was aborted (exception class `kind`) while its sequential run
+    completed -/
+def judgeRejected (c : ConfObs) : Option String :=
+  if validConf c then some "par/valid-configuration-rejected" else none
+
 end HappyModel.C05
